@@ -1,5 +1,6 @@
 import ScnVerif.Model.Convert
 import ScnVerif.Gen.Graphs
+import ScnVerif.Lemmas.ConvertValue
 /-!
 # C02 — `convert()` succeeds iff the target is derivable, never uses the wrong mode, and the
 reported graph is the one that is used
@@ -10,7 +11,8 @@ General theorems (`resolve_sound`, `resolve_complete`, `resolve_no_fuel_error`, 
 `factories_consistent`, `wiring_as_documented`) are re-checked by
 `decide +kernel` against `Gen/Graphs.lean`, which the translator regenerates from the source on
 every run. The property theorems (`convert_ok_iff`, `convert_error_runtime`,
-`supplied_takes_precedence`, `never_wrong_mode`, `deduce_eq_used`, `convertLiteral_eq_convert_partial`) quantify over EVERY presence
+`supplied_takes_precedence`, `never_wrong_mode`, `deduce_eq_used`, `convertLiteral_eq_convert_partial`,
+`convert_value`) quantify over EVERY presence
 predicate `P : Name → Bool` (so over all 2^11 subsets and beyond), every target name, both scatter
 flags and every supported origin.
 -/
@@ -1451,5 +1453,171 @@ theorem wiring_as_documented :
     lookupEq [(nTof, documentedIndirect)] T.indirectInelastic = true := by
   decide +kernel
 
+
+section value
+open ScnVerif.ConvertValue
+
+/-! ## The value clause: the derivation evaluates to the documented formula of the target -/
+
+def inelasticRules : Graph := T.directInelastic.flatMap (·.2) ++ T.indirectInelastic.flatMap (·.2)
+
+def valueFacts (o : Name) (reach s : Bool) (m : Mode) : Bool :=
+  match conversionGraphB T o reach s m with
+  | .ok g =>
+    g.all (fun r => (if s then T.scatterBeamline else T.noScatterBeamline).contains r
+                    || (T.dynamics.flatMap (·.2)).contains r
+                    || (decide (m ≠ .elastic) && inelasticRules.contains r))
+  | .error _ => false
+
+/-- every rule of every assembled graph is a rule of the beamline table of its scatter mode, of a dynamics
+table, or (inelastic modes only) of the inelastic tables -/
+theorem graphs_value_facts :
+    (origins.all fun o => [true, false].all fun reach => [true, false].all fun s =>
+      modes.all fun m => valueFacts o reach s m) = true := by
+  decide +kernel
+
+/-- **every kernel of every conversion graph is sound**: it maps the ground truth of its inputs to the
+ground truth (documented formula) of its output — elastic kernels by C01 (`TofPhys.*_phys`), geometry by C03
+(`two_theta_eq_angle`, Euclidean norms), inelastic kernels by C05 (`direct_/indirect_conserves_energy`,
+under the flight-time relation of the inelastic world), Q-vector / hkl kernels by definition of C08's model -/
+theorem kernels_sound (W : World) (hv : W.Valid) {o : Name} (ho : o ∈ origins) (reach s : Bool) (m : Mode)
+    {g : Graph} (hg : conversionGraphB T o reach s m = .ok g) (hf : m ≠ .elastic → W.Flight) :
+    ∀ r ∈ g, ∀ out ∈ r.outs, sem W r.kernel out (r.ins.map (truth W s)) = truth W s out := by
+  have h := graphs_value_facts
+  simp only [List.all_eq_true] at h
+  have h' := h o ho reach (by cases reach <;> simp) s (by cases s <;> simp) m (by cases m <;> simp [modes])
+  unfold valueFacts at h'
+  rw [hg] at h'
+  simp only [List.all_eq_true, Bool.or_eq_true, Bool.and_eq_true, List.contains_eq_mem, decide_eq_true_eq] at h'
+  intro r hr
+  rcases h' r hr with (hb | hd) | ⟨hm, hi⟩
+  · cases s
+    · simp only [Bool.false_eq_true, if_false] at hb
+      exact no_scatter_rules_sound W hv r hb
+    · simp only [if_true] at hb
+      exact scatter_rules_sound W hv r hb
+  · exact dynamics_rules_sound W hv s r hd
+  · exact inelastic_rules_sound W hv (hf hm) s r hi
+
+/-- **`convert_value`** — for every supported origin, every target, both scatter flags and every presence
+predicate: if `convert` returns the derivation `d`, and the supplied coordinates carry the ground-truth values of
+one neutron on one straight beamline `W` (for the target `energy_transfer`: a neutron obeying the inelastic
+flight-time relation), then evaluating `d` with the ℝ semantics of the kernels yields the documented value of
+the target: λ = h t/(m_n L), E = m_n L²/(2t²), d = λ/(2 sin θ), Q = 4π sin θ/λ, L1/L2/Ltotal Euclidean, 2θ the
+Euclidean angle, ΔE = Ei − Ef, Q⃗ = (2π/λ)(ê_i − ê_f), hkl = (R·UB)⁻¹Q⃗/2π, t_sample = t_pulse + t − L2/v. -/
+theorem convert_value (W : World) (hv : W.Valid) (P : Name → Bool) {o : Name} (ho : o ∈ origins) (t : Name)
+    (s : Bool) {d : Term} (h : convert T P o t s = .ok d) (env : Name → Val)
+    (henv : ∀ n, P n = true → env n = truth W s n)
+    (hfl : t = nEnergyTransfer → W.Flight) :
+    d.eval (sem W) env = truth W s t := by
+  cases hm : deduceEnergyMode P o t with
+  | error e => simp [convert, deduceConversionGraph, hm] at h
+  | ok m =>
+    obtain ⟨g, tbl, hg, _, _, _, _, hc⟩ := convert_unfold P ho t s hm
+    have hres : resolve g P (fuelFor g) t = .ok d := by
+      rw [hc] at h
+      cases hr : resolve g P (fuelFor g) t with
+      | ok d' => simp [hr] at h; rw [h]
+      | error e => cases e <;> simp [hr] at h
+    have hmode : m ≠ .elastic → W.Flight := by
+      intro hne
+      obtain ⟨sd, si, _⟩ := deduceEnergyMode_spec hm
+      cases m with
+      | elastic => exact absurd rfl hne
+      | direct => exact hfl (sd rfl).1
+      | indirect => exact hfl (si rfl).1
+    exact eval_sound (sem W) env (truth W s) henv
+      (kernels_sound W hv ho (reachableBy t (beamline T true)) s m hg hmode) hres
+
+
+/-- the documented formulas, spelled out for the scalar targets (corollary of `convert_value`; `dist` is the
+Euclidean distance of C03, `V3R.angle` the Euclidean angle `arccos(⟪a,b⟫/(‖a‖‖b‖))`) -/
+theorem convert_value_formulas (W : World) (hv : W.Valid) (P : Name → Bool) {o : Name} (ho : o ∈ origins) (t : Name)
+    (s : Bool) {d : Term} (h : convert T P o t s = .ok d) (env : Name → Val)
+    (henv : ∀ n, P n = true → env n = truth W s n) (hfl : t = nEnergyTransfer → W.Flight) :
+    let L : ℝ := if s then Props.C03.dist W.sample W.source + Props.C03.dist W.position W.sample
+                 else Props.C03.dist W.position W.source
+    let lam : ℝ := W.h * (W.t * W.sT) / (W.mn * (L * W.sL))
+    (t = nWavelength → d.eval (sem W) env = .s (lam / W.sA)) ∧
+    (t = nEnergy → d.eval (sem W) env = .s (W.mn * (L * W.sL) ^ 2 / (2 * (W.t * W.sT) ^ 2) / W.sE)) ∧
+    (t = nDspacing → d.eval (sem W) env = .s (lam / (2 * Real.sin (V3R.angle W.ib W.sb / 2)) / W.sA)) ∧
+    (t = nQ → d.eval (sem W) env = .s (4 * Real.pi * Real.sin (V3R.angle W.ib W.sb / 2) / (lam / W.sA))) ∧
+    (t = nEnergyTransfer → d.eval (sem W) env = .s (W.Ei - W.Ef)) ∧
+    (t = nL1 → d.eval (sem W) env = .s (Props.C03.dist W.sample W.source)) ∧
+    (t = nL2 → d.eval (sem W) env = .s (Props.C03.dist W.position W.sample)) ∧
+    (t = nLtotal → d.eval (sem W) env = .s L) ∧
+    (t = nTwoTheta → d.eval (sem W) env = .s (V3R.angle W.ib W.sb)) := by
+  intro L lam
+  rw [convert_value W hv P ho t s h env henv hfl]
+  have hL : W.Ltot s = L := by
+    simp only [World.Ltot, World.L1, World.L2, World.ib, World.sb, Beamline.straightIncidentBeam,
+      Beamline.straightScatteredBeam, Props.C03.norm_sub_eq_dist, L]
+  have hlam : W.lam s = lam := by simp only [World.lam, hL, lam]
+  refine ⟨?_, ?_, ?_, ?_, ?_, ?_, ?_, ?_, ?_⟩ <;> intro ht <;> subst ht
+  · simp [truth, nWavelength, nPosition, nSourcePosition, nSamplePosition, nIncidentBeam, nScatteredBeam, nL1, nL2,
+      nLtotal, nTwoTheta, nIncidentEnergy, nFinalEnergy, nTof, hlam]
+  · simp [truth, nEnergy, nWavelength, nPosition, nSourcePosition, nSamplePosition, nIncidentBeam, nScatteredBeam, nL1,
+      nL2, nLtotal, nTwoTheta, nIncidentEnergy, nFinalEnergy, nTof, World.energy, hL]
+  · simp [truth, nDspacing, nQ, nEnergy, nWavelength, nPosition, nSourcePosition, nSamplePosition, nIncidentBeam,
+      nScatteredBeam, nL1, nL2, nLtotal, nTwoTheta, nIncidentEnergy, nFinalEnergy, nTof, hlam, World.θ]
+  · simp [truth, nQ, nEnergy, nWavelength, nPosition, nSourcePosition, nSamplePosition, nIncidentBeam,
+      nScatteredBeam, nL1, nL2, nLtotal, nTwoTheta, nIncidentEnergy, nFinalEnergy, nTof, hlam, World.θ]
+  · simp [truth, nEnergyTransfer, nDspacing, nQ, nEnergy, nWavelength, nPosition, nSourcePosition, nSamplePosition,
+      nIncidentBeam, nScatteredBeam, nL1, nL2, nLtotal, nTwoTheta, nIncidentEnergy, nFinalEnergy, nTof]
+  · simp [truth, nL1, nPosition, nSourcePosition, nSamplePosition, nIncidentBeam, nScatteredBeam, World.L1, World.ib,
+      Beamline.straightIncidentBeam, Props.C03.norm_sub_eq_dist]
+  · simp [truth, nL2, nL1, nPosition, nSourcePosition, nSamplePosition, nIncidentBeam, nScatteredBeam, World.L2,
+      World.sb, Beamline.straightScatteredBeam, Props.C03.norm_sub_eq_dist]
+  · simp [truth, nLtotal, nL2, nL1, nPosition, nSourcePosition, nSamplePosition, nIncidentBeam, nScatteredBeam, hL]
+  · simp [truth, nTwoTheta, nLtotal, nL2, nL1, nPosition, nSourcePosition, nSamplePosition, nIncidentBeam,
+      nScatteredBeam, World.θ]
+
+/-! ### non-vacuity: a valid inelastic world and a concrete conversion -/
+
+/-- source at (0,0,−1), sample at the origin, detector at (0,1,0): 2θ = π/2; m_n = 2, Ei = 4, Ef = 1 (speeds 2 and 1),
+arrival time 1/2 + 1 -/
+noncomputable def exWorld : World :=
+  { h := 1, mn := 2, sT := 1, sL := 1, sA := 1, sE := 1, sEn := 1,
+    source := ⟨0, 0, -1⟩, sample := ⟨0, 0, 0⟩, position := ⟨0, 1, 0⟩,
+    t := 3 / 2, pulse := 0, Ei := 4, Ef := 1,
+    U := ⟨1, 0, 0, 0, 1, 0, 0, 0, 1⟩, B := ⟨1, 0, 0, 0, 1, 0, 0, 0, 1⟩, R := ⟨1, 0, 0, 0, 1, 0, 0, 0, 1⟩ }
+
+theorem exWorld_norms : exWorld.L1 = 1 ∧ exWorld.L2 = 1 := by
+  constructor <;>
+    simp [World.L1, World.L2, World.ib, World.sb, exWorld, Beamline.straightIncidentBeam,
+      Beamline.straightScatteredBeam, V3.norm, V3.dot, V3.sub]
+
+theorem exWorld_theta : exWorld.θ = Real.pi / 2 := by
+  have hc : V3R.cosAngle exWorld.ib exWorld.sb = 0 := by
+    simp [V3R.cosAngle, World.ib, World.sb, exWorld, Beamline.straightIncidentBeam,
+      Beamline.straightScatteredBeam, V3.dot, V3.sub]
+  simp [World.θ, V3R.angle, hc]
+
+theorem exWorld_valid : exWorld.Valid ∧ exWorld.Flight := by
+  have hne : ∀ a b : V3 ℝ, a.x ≠ b.x ∨ a.y ≠ b.y ∨ a.z ≠ b.z → a ≠ b := by
+    intro a b h e; subst e; simp at h
+  refine ⟨⟨?_, ?_, ?_, ?_, ?_, ?_, ?_, ?_, ?_, ?_, ?_, ?_, ?_, ?_⟩, ?_⟩
+  any_goals (simp [exWorld]; done)
+  · exact hne _ _ (.inr (.inr (by simp [World.ib, exWorld, Beamline.straightIncidentBeam, V3.sub, V3R.zero])))
+  · exact hne _ _ (.inr (.inl (by simp [World.sb, exWorld, Beamline.straightScatteredBeam, V3.sub, V3R.zero])))
+  · exact hne _ _ (.inr (.inl (by simp [exWorld, V3.sub, V3R.zero])))
+  · rw [exWorld_theta]
+    exact Real.sin_pos_of_pos_of_lt_pi (by positivity) (by linarith [Real.pi_pos])
+  · unfold World.Flight
+    rw [exWorld_norms.1, exWorld_norms.2]
+    have h1 := Lemmas.Inelastic.speed_example
+    simp only [exWorld]
+    rw [h1.1, h1.2]; norm_num
+
+/-- `convert_value` applied: tof → energy_transfer on direct-inelastic data of `exWorld` gives Ei − Ef = 3 -/
+example (d : Term) (h : convert T exDirect nTof nEnergyTransfer true = .ok d) (env : Name → Val)
+    (henv : ∀ n, exDirect n = true → env n = truth exWorld true n) :
+    d.eval (sem exWorld) env = .s 3 := by
+  have := (convert_value_formulas exWorld exWorld_valid.1 exDirect (o := nTof) (by decide +kernel)
+    nEnergyTransfer true h env henv (fun _ => exWorld_valid.2)).2.2.2.2.1 rfl
+  rw [this]; simp [exWorld]; norm_num
+
+
+end value
 
 end ScnVerif.Props.C02
